@@ -49,10 +49,22 @@ class Undecided(Exception):
     """The region contains a construct outside the modelled subset."""
 
 
+_METHOD_ALIASES = {}      # 'Sub.method' -> qualified name of the definition Sub inherits (set from the model a SymEx is built over)
+
+
+class Callees(list):
+    """the definitions a call may run.  `'Position.update_current_price' in callees` also holds when Position inherits that method from a base class that
+    defines it (a helper base a refactoring split off): rules name methods by the class the objects are instances of."""
+    def __contains__(self, name):
+        return list.__contains__(self, name) or (_METHOD_ALIASES.get(name) is not None and list.__contains__(self, _METHOD_ALIASES[name]))
+
+
 class Ev:
     __slots__ = ('kind', 'd')
 
     def __init__(self, kind, **d):
+        if kind == 'call' and isinstance(d.get('callee'), list) and not isinstance(d['callee'], Callees):
+            d['callee'] = Callees(d['callee'])
         self.kind, self.d = kind, d
 
     def __getattr__(self, k):
@@ -399,6 +411,8 @@ class SymEx:
         self.M = model
         self.policy = policy
         self.oracle = oracle
+        _METHOD_ALIASES.clear()
+        _METHOD_ALIASES.update(model.method_aliases() if hasattr(model, 'method_aliases') else {})
         self.max_paths = max_paths
         self.value_classes = value_classes
         self.skip_print_guards = skip_print_guards
@@ -3434,6 +3448,10 @@ def _unroll_const_comp(c):
 def _fuse_comp(c):
     """(f(x) for x in (g(y) for y in it if p(y)) if q(x))  ==  (f(g(y)) for y in it if p(y) if q(g(y)));  a comprehension over nothing is empty"""
     kind, elt, gens = c[1], c[2], c[3]
+    if any(g[1][0] == 'call' and g[1][1] == ('ext', 'builtins.iter') and len(g[1][2]) == 1 and not g[1][3] for g in gens):
+        # a comprehension over iter(xs) visits xs
+        gens = tuple((g[0], g[1][2][0], g[2]) if (g[1][0] == 'call' and g[1][1] == ('ext', 'builtins.iter') and len(g[1][2]) == 1 and not g[1][3]) else g for g in gens)
+        return _fuse_comp(('comp', kind, elt, gens))
     if any(g[1] == ('list', ()) for g in gens):
         return ('dict', ()) if kind == 'dict' else ('list', ())
     if len(gens) == 1:
